@@ -174,3 +174,5 @@ func runC02(c c02Case) *vlib.Outcome {
 func TestC02(t *testing.T) {
 	vlib.Check(t, "C02", genC02, runC02)
 }
+
+func FuzzC02(f *testing.F) { vlib.Fuzz(f, "C02", genC02, runC02) }
